@@ -22,6 +22,10 @@ CLAIMED = {
  'C05': dict(engine = 'symx', technique = 'symbolic execution of real Calendar code (AST-rewritten _drange.py: guarded lists, symbolic dicts) with z3 over ALL holiday subsets of a window at once; validated rrule stub; counterexample replay',
              text = 'is_bday, adjust f/p/m, add (single-step and indexed path), bdays, add/-add round trip, path agreement, Calendar.drange and the registry are decided for every holiday subset of a 15-day (thorough 22-day) calendar placed anywhere in 1900-2300, every weekend definition, every probe day; verdicts hold for all values in those bounds.',
              note = 'Trusted: z3/cvc5, CPython, proxies, the AST rewrite (identity on concrete values), rrule contract stub and neighbour lemma (validated each run). Assumes no run of more than 4 consecutive non-business days; |n| <= 3 quick / 6 thorough (statement: 40); the Calendar object is built directly in its documented state except in the registry obligation.'),
+
+ 'C06': dict(engine = 'symx', technique = 'symbolic execution of real dictable.inc/exc/find_ with z3 over tagged cells (None, ints, extended-real floats with NaN identity, pooled strings); counterexample replay',
+             text = 'For every table of 0..3 rows (thorough 4) with symbolic cells and every condition kind (value, lists, None, NaN, regex, dict filter, conjunctions, single callables) the solver decides that inc returns exactly the satisfying rows and exc the others in original order, with all columns, operand unchanged, inc idempotent and inc() the identity; find_<col> returns the unique value or raises.',
+             note = 'Trusted: z3/cvc5, CPython, proxies. Floats are extended reals; strings and regexes from pools chosen by symbolic index; find_ uses pooled concrete cells because set() hashes them; conjunctions of two conditions on tables of <= 1 row in quick (2 in thorough).'),
 }
 NA = {}
 TODO = 'check not built yet in this session (work in progress); will be decided by symbolic execution of the real code as described in DESIGN.md'
